@@ -64,7 +64,10 @@ type totReq struct {
 	Family string `json:"family,omitempty"`
 	Size   int    `json:"size,omitempty"`
 	NoIn   bool   `json:"noin,omitempty"` // do not echo the input (multi-megabyte)
+	Only   string `json:"only,omitempty"` // run only the entry point of this name (multi-megabyte inputs: limited entry points only)
 }
+
+const exactPrefixEntry = "ParseSchemasWithLimit(2; a source of exactly 2 tokens, then the input)"
 
 func classifyErr(err error, o *totOut) {
 	o.Err = err != nil
@@ -82,11 +85,11 @@ func classifyErr(err error, o *totOut) {
 }
 
 // runTotal runs the lexer loop and all six parser entry points on text.
-func runTotal(text string) totCase {
+func runTotal(text string, only string) totCase {
 	tc := totCase{N: -1}
 	// lexer loop
 	lx := lexer.New(&ast.Source{Input: text, Name: "t"})
-	for {
+	for only == "" {
 		t, err := lx.ReadToken()
 		if err != nil {
 			tc.Lex.Err = true
@@ -116,6 +119,13 @@ func runTotal(text string) totCase {
 		{"ParseSchemaWithLimit(3)", func() (bool, error) { d, e := parser.ParseSchemaWithLimit(src(), 3); return d != nil, e }},
 		{"ParseSchemas", func() (bool, error) { d, e := parser.ParseSchemas(src()); return d != nil, e }},
 		{"ParseSchemasWithLimit(2)", func() (bool, error) { d, e := parser.ParseSchemasWithLimit(2, src()); return d != nil, e }},
+	}
+	if only == exactPrefixEntry {
+		// a first source that uses up the limit exactly, then the input: every source has the limit to itself
+		entries = []entry{{exactPrefixEntry, func() (bool, error) {
+			d, e := parser.ParseSchemasWithLimit(2, &ast.Source{Input: "scalar S", Name: "p"}, src())
+			return d != nil, e
+		}}}
 	}
 	for _, en := range entries {
 		o := totOut{E: en.name, Counted: true}
@@ -151,7 +161,7 @@ func totalWorker(args []string) int {
 		}
 		fmt.Fprintf(w, "B %d\n", n)
 		w.Flush()
-		tc := runTotal(text)
+		tc := runTotal(text, rq.Only)
 		tc.N = known
 		if !rq.NoIn {
 			tc.In = cps(text)
@@ -549,6 +559,11 @@ func checkC01(c *core.Ctx) {
 			reqs = append(reqs, totReq{Family: f, Size: sz})
 		}
 	}
+	// 8 MiB of nesting through a limited entry point only (unlimited recursion that deep is beyond any stack):
+	// it must come back with the limit error, whatever stands before it in the same call
+	for _, f := range []string{"schema-open-type", "schema-open-default"} {
+		reqs = append(reqs, totReq{Family: f, Size: 8 << 20, NoIn: true, Only: exactPrefixEntry})
+	}
 	descr := func(i int) string {
 		if reqs[i].Family != "" {
 			return fmt.Sprintf("family %s size %d", reqs[i].Family, reqs[i].Size)
@@ -570,6 +585,16 @@ func checkC01(c *core.Ctx) {
 			return
 		}
 		seenIn[key] = true
+		if reqs[i].Only != "" {
+			// decided here: the input is far over the limit, so the call must return an error (that it
+			// returned at all, without a crash or the watchdog, is what the child process established)
+			for _, o := range tc.Outs {
+				if !o.Err {
+					c.Violation(fmt.Sprintf("%s on %s: parsed although the input has millions of tokens and the limit is 2", o.E, descr(i)), map[string]any{"request": reqs[i], "entry": o.E})
+				}
+			}
+			return
+		}
 		tc.ID = i
 		// the exhaustive inputs are tiny: let the specification count their tokens; for long inputs
 		// token counting in TLC is affordable up to a few thousand characters
